@@ -69,8 +69,8 @@ CLAIMED = {
    design="5/C13"),
  "C07": dict(
    text="PARTIAL. Coq theorems over ALL entry lists (any sequence of two-digit levels, no well-nesting assumed): the forest built by structure() has preorder = the kept entries (66/77/88 skipped), each exactly once in source order, every entry's parent is the nearest preceding kept entry with a strictly smaller level, roots are the entries without one (every 01); generated FILLER names are pairwise distinct. "
-        "The clause regular expression, sentence splitter and schema emission are not proved: the emitted schema shape is an executable model compared with the real code on generated copybooks, and what the text layer returned is observed in every case.",
-   note="Proved: structure(), DDE naming. Modelled and checked by correspondence only: build_json_schema shape. Not modelled: reference_format/dde_sentences (C12's model) and the clause regexp. The full REDEFINES-error statement is kept as a Definition with two proved partial theorems. Known findings: last entry lost without trailing white space / >=72-column line (pinned by test_20), REDEFINES in an OCCURS group (KeyError), keyword-prefixed names, INDEXED BY naming (pinned by test_7).",
+        "The sentence splitter and clause regular expression are proved in C12/C12b, not here; schema emission is not proved: the emitted schema shape is an executable model compared with the real code on generated copybooks, and what the text layer returned is observed in every case.",
+   note="Proved: structure(), DDE naming. Modelled and checked by correspondence only: build_json_schema shape. Modelled elsewhere: reference_format/dde_sentences (C12's model) and the clause regular expression (engine C12b: C12b_naming/C12b_printer_* prove which level, name and clauses the scanner returns for every printed entry); C07 observes what that layer returned in every case and judges the forest built from it. The full REDEFINES-error statement is kept as a Definition with two proved partial theorems. Known findings: last entry lost without trailing white space / >=72-column line (pinned by test_20), REDEFINES in an OCCURS group (KeyError), keyword-prefixed names, INDEXED BY naming (pinned by test_7).",
    technique="Coq proof by induction over the entry list (stack-of-open-frames invariant) + sampled differential correspondence on generated copybooks",
    design="5/C07"),
  "C15": dict(
